@@ -760,7 +760,22 @@ func jsonCases(c runCfg, prop string) ([]*scratch.Pkg, []string, map[string]inte
 			names = append(names, nm)
 			kinds[s.Kind]++
 		}
-		// oneOf types (NOT modelled in Coq: judged against the sent value only): variants told apart by a required key of
+		// one type whose every property is a primitive component reached through two alias components, scalar and as array items
+		{
+			mk := func(kind string, bits int) *JS {
+				return &JS{Kind: kind, Bits: bits, Ref: fmt.Sprintf("Al%s%d", strings.Title(kind), bits), Alias: 2}
+			}
+			s := &JS{Kind: "obj", Ref: "TAl", Alias: pi % 3, Members: []JM{
+				{Name: "b", Req: true, S: mk("bool", 0)}, {Name: "i", Req: true, S: mk("int", 64)}, {Name: "n", Req: false, S: mk("num", 64)},
+				{Name: "s", Req: true, S: mk("str", 0)}, {Name: "t", Req: true, S: mk("time", 0)},
+				{Name: "ts", Req: false, S: &JS{Kind: "arr", Inner: mk("time", 0)}}, {Name: "us", Req: false, S: &JS{Kind: "arr", Inner: mk("int", 64)}},
+			}}
+			s.Dialect(&comps)
+			tops = append(tops, s)
+			names = append(names, "TAl")
+			kinds[s.Kind]++
+		}
+		// oneOf types (variant choice modelled in Model/OneOf.v): variants told apart by a required key of
 		// their own, or by a discriminator whose mapping is partial / complete / absent
 		var oneOfLines []string
 		for oi := 0; oi < 3; oi++ {
